@@ -254,7 +254,7 @@ fn case_detail(uni: &Uni, c: &CaseId) -> Value {
         Verdict::Exact => ("Ok: exactly b".to_string(), Value::Null),
         Verdict::Typed(v, _) => (format!("Err(TickPatchError::{v})"), Value::Null),
         Verdict::Bad(s, _) => (
-            format!("VIOLATION {}", s.join(" | ")),
+            format!("oracle-fail {}", s.join(" | ")),
             match &ev.result {
                 Some(st) => match uni.u.read(st) {
                     Ok(g) => match safe_root(st, &uni.u.root_key(b)) {
